@@ -161,13 +161,68 @@ func runC06(tier string) int {
 	if completed < maxSlots {
 		r.NotExhaustive(fmt.Sprintf("completed files with <= %d inline arguments of planned <= %d", completed, maxSlots))
 	}
+	// the size dimension: files with K inline arguments of pairwise different content, for every K up to a bound
+	// far above the exhaustive one (numbering, sharing and ordering must not depend on how many there are)
+	maxK := 40
+	if tier == "thorough" {
+		maxK = 120
+	}
+	type longJob struct{ k, pattern, split, rot int }
+	var longJobs []longJob
+	for k := 4; k <= maxK; k++ {
+		for pattern := 0; pattern < 5; pattern++ {
+			for split := 0; split < 3; split++ {
+				for _, rot := range []int{0, 5} {
+					longJobs = append(longJobs, longJob{k, pattern, split, rot})
+				}
+			}
+		}
+	}
+	longDone := r.Parallel(uint64(len(longJobs)), func(w int, i uint64) {
+		j := longJobs[i]
+		data := make([]datum, j.k)
+		for n := range data {
+			isText := false
+			switch j.pattern {
+			case 0:
+				isText = true
+			case 2:
+				isText = n%2 == 0
+			case 3:
+				isText = n >= 4 // four movements first, then texts
+			case 4:
+				isText = n%5 == 4
+			}
+			if isText {
+				data[n] = datum{src: fmt.Sprintf(`"t%d"`, n), isText: true, content: fmt.Sprintf("t%d$", n)}
+			} else {
+				data[n] = datum{src: fmt.Sprintf("moves(m%d)", n), steps: []string{fmt.Sprintf("m%d", n)}}
+			}
+			if n%7 == 6 {
+				data[n] = data[n-3] // some sharing
+			}
+		}
+		dist := []int{j.k, 0, 0}
+		switch j.split {
+		case 1:
+			dist = []int{j.k / 3, j.k / 3, j.k - 2*(j.k/3)}
+		case 2:
+			dist = []int{0, j.k / 2, j.k - j.k/2}
+		}
+		r.Add("long_files", 1)
+		c06Eval(r, data, dist, j.rot, 0)
+	})
+	if !longDone {
+		r.NotExhaustive("long files not completed")
+	}
+	r.Set("long_files_max_inline_arguments", maxK)
 	r.Set("max_slots_completed", completed)
 	r.Set("datum_kinds", len(c06Data))
 	r.Set("contexts", c06Contexts)
 	r.Assume("names are <owner>_Text_<n> / <owner>_Movement_<n>, n counting the owner's new contents in source order of first appearance; content of a moves() is its written, expanded step list",
 		"identical content = identical text after terminator and format() processing and identical string type")
 	return r.Finish(r.Get("evaluations"), r.Get("nontrivial"),
-		"every file with N inline arguments distributed over 3 owners (two scripts and an inline map script, <= 3 each) x every assignment of 23 datum kinds (plain / already-terminated / formatted / other text, ascii, braille and custom types incl. typed texts whose final literal equals a plain one, one literal under six format() parameter sets of which two give the same result, 9 moves() spellings incl. lists that differ only in the length of their last run or whose run-length spelling collides with another step name) x context rotations over 13 contexts (statement, if, while, switch case, AutoVar condition, selected poryswitch case, '_' case after an unselected one, do-while condition, AutoVar leaf in a parenthesised / negated group followed by an operator, elif condition, AutoVar switch operand, second of two inline data in one command) x {no user name, a user text, a user movement named like a generated label}; non-trivial = some content is shared between two arguments")
+		"every file with N inline arguments distributed over 3 owners (two scripts and an inline map script, <= 3 each) x every assignment of 23 datum kinds (plain / already-terminated / formatted / other text, ascii, braille and custom types incl. typed texts whose final literal equals a plain one, one literal under six format() parameter sets of which two give the same result, 9 moves() spellings incl. lists that differ only in the length of their last run or whose run-length spelling collides with another step name) x context rotations over 13 contexts (statement, if, while, switch case, AutoVar condition, selected poryswitch case, '_' case after an unselected one, do-while condition, AutoVar leaf in a parenthesised / negated group followed by an operator, elif condition, AutoVar switch operand, second of two inline data in one command) x {no user name, a user text, a user movement named like a generated label}; plus long files with K pairwise different inline arguments for every K up to the bound in the coverage (5 text/movement patterns x 3 owner splits x 2 context rotations); non-trivial = some content is shared between two arguments")
 }
 
 func c06Eval(r *harness.Run, data []datum, dist []int, rot, clash int) {
